@@ -344,6 +344,9 @@ func jsonCat(s *Src) string {
 }
 
 func altsOverlap(alts []*Src) bool {
+	if srcConstUnion(alts) {
+		return false // pairwise distinct constants: exactly one branch accepts a value
+	}
 	seen := map[string]bool{}
 	for _, a := range alts {
 		c := jsonCat(a)
@@ -353,4 +356,20 @@ func altsOverlap(alts []*Src) bool {
 		seen[c] = true
 	}
 	return false
+}
+
+// srcConstUnion: every alternative is a constant and the constants are pairwise distinct (`oneOf` of `const`s).
+func srcConstUnion(alts []*Src) bool {
+	seen := map[string]bool{}
+	for _, a := range alts {
+		if a.Kind != SConst {
+			return false
+		}
+		k := a.Const.json()
+		if seen[k] {
+			return false
+		}
+		seen[k] = true
+	}
+	return len(alts) > 0
 }
